@@ -875,7 +875,7 @@ fn elf_id(len: usize, content: usize) -> Vec<u8> {
 }
 const ELF_LENS: [usize; 8] = [0, 1, 15, 16, 17, 20, 32, 64];
 fn cv_menu(tier: Tier) -> Vec<Cv> {
-    let files: Vec<&[u8]> = take(tier, 2, &[&b"c:\\x\\foo.pdb\0"[..], &b"nonul.pdb"[..], &b""[..], &b"a\0trailing\0"[..]]);
+    let files: Vec<&[u8]> = take(tier, 3, &[&b"c:\\x\\foo.pdb\0"[..], &b"a\0trailing\0"[..], &b"nonul.pdb"[..], &b""[..]]);
     let mut v = vec![Cv::None];
     for g in GUIDS {
         for a in AGES {
